@@ -232,14 +232,8 @@ func c04TunnelWrite(c *Ctx) {
 				if ci.Call.IsInvoke() && ci.Call.Method.Name() == "Write" {
 					nw++
 				}
-				n := core.CalleeObjName(ci)
-				if n == "encoding/base64.Encoding.EncodeToString" || n == "encoding/base64.Encoding.Encode" || n == "encoding/base64.Encoding.AppendEncode" {
-					// the whole argument, with the padded standard alphabet
-					src := ci.Call.Args[len(ci.Call.Args)-1]
-					enc := core.PathOf(ci.Call.Args[0])
-					if src == ssa.Value(w.Params[1]) && strings.Contains(enc, "StdEncoding") {
-						okEnc = true
-					}
+				if encodesWhole(ci, w.Params[1], 0) {
+					okEnc = true
 				}
 			}
 		}
@@ -309,6 +303,34 @@ func stopsAtParam(fn *ssa.Function, idx, depth int) bool {
 			}
 			for k, a := range ci.Call.Args {
 				if a == prm && stopsAtParam(cal, k, depth+1) {
+					return true
+				}
+			}
+		}
+	}
+	return false
+}
+
+// encodesWhole: call base64-encodes, with the padded standard alphabet, exactly the value whole:
+// directly, or through a helper of the package that does so with the parameter it is given whole.
+func encodesWhole(ci *ssa.Call, whole ssa.Value, depth int) bool {
+	n := core.CalleeObjName(ci)
+	if n == "encoding/base64.Encoding.EncodeToString" || n == "encoding/base64.Encoding.Encode" || n == "encoding/base64.Encoding.AppendEncode" {
+		src := ci.Call.Args[len(ci.Call.Args)-1]
+		enc := core.PathOf(ci.Call.Args[0])
+		return src == whole && strings.Contains(enc, "StdEncoding")
+	}
+	h := ci.Call.StaticCallee()
+	if h == nil || h.Blocks == nil || depth >= 2 || !core.InRepo(h) {
+		return false
+	}
+	for i, a := range ci.Call.Args {
+		if a != whole || i >= len(h.Params) {
+			continue
+		}
+		for _, b := range h.Blocks {
+			for _, in := range b.Instrs {
+				if c2, ok := in.(*ssa.Call); ok && encodesWhole(c2, h.Params[i], depth+1) {
 					return true
 				}
 			}
